@@ -27,7 +27,8 @@ CapsT == [strong |-> 2, stored |-> 1, rec |-> 1, weak |-> 1, storedW |-> 1, over
 CapsWT == [strong |-> 2, stored |-> 1, rec |-> 1, weak |-> 1, storedW |-> 1, over |-> FALSE, elide |-> FALSE, scripted |-> 1]
 Caps3 == [strong |-> 3, stored |-> 1, rec |-> 1, weak |-> 1, storedW |-> 1, over |-> FALSE, elide |-> FALSE, scripted |-> 1]
 VPinned == [bust |-> "out", loop |-> "split", consume |-> "ignore"]
-VFixed  == [bust |-> "owned", loop |-> "ignored", consume |-> "ignore"]
+VFixed  == [bust |-> "owned", loop |-> "ignored", consume |-> "purge"]
+VFixAB  == [bust |-> "owned", loop |-> "ignored", consume |-> "ignore"]
 VFixA   == [bust |-> "owned", loop |-> "split", consume |-> "ignore"]
 MenuPlain == {NoScript}
 Sc(o, i, j) == [op |-> o, x |-> i, y |-> j]
@@ -35,7 +36,17 @@ MenuC16 == {NoScript} \cup {Sc(o, i, 0) : o \in {"CloneStored", "DropStored"}, i
 MenuC05 == {NoScript} \cup {Sc(o, i, 0) : o \in {"UpgradeWeak", "UpgradeStored"}, i \in Obj}
 MenuC10 == {NoScript} \cup {Sc(o, i, 0) : o \in {"CloneRoot", "DropRoot", "Downgrade", "WeakDrop", "UpgradeWeak", "UpgradeStored"}, i \in Obj}
                       \cup {Sc(o, i, j) : o \in {"Adopt", "Unadopt"}, i \in Obj, j \in Obj}
+MenuC10Q == {NoScript} \cup {Sc(o, i, 0) : o \in {"CloneRoot", "DropRoot", "UpgradeWeak"}, i \in Obj}
+                       \cup {Sc("Adopt", i, j) : i \in Obj, j \in Obj}
 MenuPanic == {NoScript, Sc("Panic", 0, 0)}
+OpsConsume == {"New", "CloneRoot", "DropRoot", "AdoptStore", "TakeUnadopt", "Store", "Downgrade", "WeakDrop", "Upgrade",
+               "TryUnwrap", "GetMut", "MakeMut", "IntoRaw", "FromRaw", "IncStrong", "DecStrong", "DropDetached"}
+VPurge == [bust |-> "owned", loop |-> "ignored", consume |-> "purge"]
+OpsDtorQ == {"New", "CloneRoot", "DropRoot", "AdoptStore", "Downgrade", "StoreWeak"}
+OpsCoreQ == {"New", "CloneRoot", "DropRoot", "Store", "Take", "DropStored", "AdoptStore", "TakeUnadopt", "Adopt"}
+OpsConsumeQ == {"New", "CloneRoot", "DropRoot", "AdoptStore", "Downgrade", "WeakDrop",
+                "TryUnwrap", "MakeMut", "IntoRaw", "FromRaw", "DecStrong", "DropDetached"}
+CapsL == [strong |-> 4, stored |-> 2, rec |-> 2, weak |-> 1, storedW |-> 1, over |-> FALSE, elide |-> FALSE, scripted |-> 1]
 OpsDtor == {"New", "CloneRoot", "DropRoot", "Store", "AdoptStore", "TakeUnadopt", "DropStored",
             "Downgrade", "WeakDrop", "StoreWeak", "Upgrade"}
 
@@ -54,7 +65,7 @@ MCSpec == MCInit /\ [][MCNext]_<<vars, hist>>
 
 \* fingerprint: everything that influences behaviour or a property
 View == <<heap, led,
-          [nd |-> ob.nd, nf |-> ob.nf, ub |-> ob.ub, must |-> ob.must, flags |-> ob.flags,
+          [nd |-> ob.nd, nf |-> ob.nf, ub |-> ob.ub, must |-> ob.must, flags |-> ob.flags, dcset |-> ob.dcset,
            empty0 |-> ob.empty0],
           ctl>>
 
@@ -69,6 +80,9 @@ MC_C06 == Cex("C06", C06)
 MC_C08 == Cex("C08", C08)
 MC_C14 == Cex("C14", C14)
 MC_C16 == Cex("C16", C16)
+MC_C12 == Cex("C12", C12)
+MC_C13 == Cex("C13", C13)
+MC_C13x == Cex("C13x", C13x)
 \* C10: the guarantees C01-C06 with re-entrant destructors, and no internal borrow conflict
 MC_C10 == Cex("C10", C01 /\ C02 /\ C03 /\ C04 /\ C05 /\ C06)
 \* C11: a panicking destructor: nothing dies twice, nothing reachable is harmed, Weak reports dead
